@@ -106,6 +106,9 @@ def run(p, report, tier):
     report.rule("R6.4", "a pool query never draws from the object held by the constructor parameter random_state "
                 "itself (it must go through the seed-multiplier copy), so a repeated call with a RandomState instance "
                 "gives the same result", floor=30)
+    report.rule("R6.5", "no stream strategy / budget manager query or update stores to, or mutates the object held by, "
+                "a constructor parameter: twins built from equal parameter objects would otherwise continue from "
+                "each other's state", floor=60)
     # ---- R6.1 syntactic, whole package
     # embedded positive example keeps the rule alive
     ex = ast.parse(POSITIVE_EXAMPLE)
@@ -173,7 +176,34 @@ def run(p, report, tier):
                     construct = f"{cname_ext.split('.')[-1]}.{ev.data['method']} in {ev.fi.qual}: {norm_stmt(ev.node)}"
                     verdict, why = seed_verdict(ckw)
                     report.add("R6.3", ent, construct, ev.loc, verdict, detail=why, path=ev.path())
+                    rs = (ckw.items or {}).get("random_state") if ckw is not None else None
+                    if is_pool_query and rs is not None:
+                        ok4 = ("self", ("random_state",)) not in rs.origins
+                        report.add("R6.4", ent, construct, ev.loc, ok4,
+                                   detail="external estimator is handed the caller's RandomState object held in "
+                                          "self.random_state (no seed-multiplier copy): its fit advances it and "
+                                          "repeated identical calls differ" if not ok4
+                                          else "random_state is not the raw constructor parameter", path=ev.path())
         diag |= it.diag
+    # ---- R6.5 twins: stream strategies / budget managers keep their evolving
+    # state in private copies, never in an object held by a constructor
+    # parameter (two objects constructed with equal parameters share those)
+    from . import c05
+    n65 = 0
+    for pkg, meths in (("skactiveml.stream", ("query", "update")),
+                       ("skactiveml.stream.budgetmanager", ("query_by_utility", "update"))):
+        for ci in p.exported_classes(pkg):
+            for mn in meths:
+                f = p.find_method(ci, mn)
+                if f is None or any((isinstance(d, ast.Name) and d.id == "abstractmethod") or
+                                    (isinstance(d, ast.Attribute) and d.attr == "abstractmethod")
+                                    for d in f.node.decorator_list):
+                    continue
+                it = Interp(p)
+                it.run_entity(ci, f)
+                c05.check_entity(p, report, ci, f, it, r_param="R6.5", r_arr=None, r_est=None)
+                n65 += 1
+    report.analysed["stream_entities_R6.5"] = n65
     report.analysed["draw_events"] = n_draw
     report.analysed["diagnostics"] = sorted(diag)
     report.tables["external_estimators_drawing_in_fit"] = sorted(EXT_DRAWING_CLASSES)
